@@ -100,7 +100,8 @@ def get_file_metadata(path, hashes):
         yield st.st_mtime
 
         f = open(fd, 'rb')
-    except Exception:
+    except BaseException:
+        # (including GeneratorExit, i.e. the consumer closing us early)
         if opened:
             os.close(fd)
         raise
